@@ -107,9 +107,31 @@ func sat64(d *Term) *Term {
 	return Extract(Ite(SLt(max, d), max, Ite(SLt(d, min), min, d)), 63, 0)
 }
 
+// stubSetOf assigns each stub of this file to a named set that instances enable explicitly.
+func stubSetOf(name string) string {
+	switch {
+	case strings.HasPrefix(name, "time.") || strings.HasPrefix(name, "(time.") || strings.HasSuffix(name, ".Now") || strings.HasSuffix(name, ".AdvanceClock") || strings.HasSuffix(name, ".AnyTime"):
+		return "lineartime"
+	case strings.HasPrefix(name, rtPkg), strings.HasPrefix(name, "math/rand."), strings.HasPrefix(name, "math/big."), strings.HasPrefix(name, "(*math/big."), strings.HasPrefix(name, "crypto/rand.Int"),
+		strings.HasPrefix(name, "context."), strings.HasPrefix(name, "github.com/hashicorp/go-uuid"):
+		return ""
+	}
+	return "proto"
+}
+
+type stubReg struct{ e *Engine }
+
+func (s stubReg) set(name string, f intrinsic) {
+	if set := stubSetOf(name); set != "" {
+		s.e.intrinsics[set+":"+name] = f
+	} else {
+		s.e.intrinsics[name] = f
+	}
+}
+
 func (e *Engine) registerStubs() {
-	in := e.intrinsics
-	in["time.Now"] = func(r *Run, fr *Frame, cc *ssa.CallCommon, a []Value) Value {
+	reg := stubReg{e}
+	reg.set("time.Now", func(r *Run, fr *Frame, cc *ssa.CallCommon, a []Value) Value {
 		if v, ok := r.ghost["now"]; ok {
 			return v
 		}
@@ -119,9 +141,9 @@ func (e *Engine) registerStubs() {
 		v := timeV(ns)
 		r.ghost["now"] = v
 		return v
-	}
-	in[rtPkg+".Now"] = in["time.Now"]
-	in[rtPkg+".AdvanceClock"] = func(r *Run, fr *Frame, cc *ssa.CallCommon, a []Value) Value {
+	})
+	reg.set(rtPkg+".Now", e.intrinsics["lineartime:time.Now"])
+	reg.set(rtPkg+".AdvanceClock", func(r *Run, fr *Frame, cc *ssa.CallCommon, a []Value) Value {
 		old, ok := r.ghost["now"]
 		ns := r.fresh("now", TW)
 		r.inputs = append(r.inputs, ns)
@@ -131,35 +153,35 @@ func (e *Engine) registerStubs() {
 		}
 		r.ghost["now"] = timeV(ns)
 		return nil
-	}
-	in[rtPkg+".AnyTime"] = func(r *Run, fr *Frame, cc *ssa.CallCommon, a []Value) Value { return r.anyTime() }
-	in["(time.Duration).Seconds"] = func(r *Run, fr *Frame, cc *ssa.CallCommon, a []Value) Value { return UF("seconds", 64, a[0].(*Term)) }
-	in["(time.Time).UTC"] = func(r *Run, fr *Frame, cc *ssa.CallCommon, a []Value) Value { return a[0] }
-	in["(time.Time).Sub"] = func(r *Run, fr *Frame, cc *ssa.CallCommon, a []Value) Value {
+	})
+	reg.set(rtPkg+".AnyTime", func(r *Run, fr *Frame, cc *ssa.CallCommon, a []Value) Value { return r.anyTime() })
+	reg.set("(time.Duration).Seconds", func(r *Run, fr *Frame, cc *ssa.CallCommon, a []Value) Value { return UF("seconds", 64, a[0].(*Term)) })
+	reg.set("(time.Time).UTC", func(r *Run, fr *Frame, cc *ssa.CallCommon, a []Value) Value { return a[0] })
+	reg.set("(time.Time).Sub", func(r *Run, fr *Frame, cc *ssa.CallCommon, a []Value) Value {
 		return sat64(Sub(nsOf(a[0]), nsOf(a[1])))
-	}
-	in["(time.Time).Add"] = func(r *Run, fr *Frame, cc *ssa.CallCommon, a []Value) Value {
+	})
+	reg.set("(time.Time).Add", func(r *Run, fr *Frame, cc *ssa.CallCommon, a []Value) Value {
 		return timeV(Add(nsOf(a[0]), SExt(a[1].(*Term), TW)))
-	}
-	in["(time.Time).After"] = func(r *Run, fr *Frame, cc *ssa.CallCommon, a []Value) Value { return SLt(nsOf(a[1]), nsOf(a[0])) }
-	in["(time.Time).Before"] = func(r *Run, fr *Frame, cc *ssa.CallCommon, a []Value) Value { return SLt(nsOf(a[0]), nsOf(a[1])) }
-	in["(time.Time).Equal"] = func(r *Run, fr *Frame, cc *ssa.CallCommon, a []Value) Value { return Eq(nsOf(a[0]), nsOf(a[1])) }
-	in["(time.Time).IsZero"] = func(r *Run, fr *Frame, cc *ssa.CallCommon, a []Value) Value { return Eq(nsOf(a[0]), BVi(0, TW)) }
-	in["(time.Time).UnixNano"] = func(r *Run, fr *Frame, cc *ssa.CallCommon, a []Value) Value {
+	})
+	reg.set("(time.Time).After", func(r *Run, fr *Frame, cc *ssa.CallCommon, a []Value) Value { return SLt(nsOf(a[1]), nsOf(a[0])) })
+	reg.set("(time.Time).Before", func(r *Run, fr *Frame, cc *ssa.CallCommon, a []Value) Value { return SLt(nsOf(a[0]), nsOf(a[1])) })
+	reg.set("(time.Time).Equal", func(r *Run, fr *Frame, cc *ssa.CallCommon, a []Value) Value { return Eq(nsOf(a[0]), nsOf(a[1])) })
+	reg.set("(time.Time).IsZero", func(r *Run, fr *Frame, cc *ssa.CallCommon, a []Value) Value { return Eq(nsOf(a[0]), BVi(0, TW)) })
+	reg.set("(time.Time).UnixNano", func(r *Run, fr *Frame, cc *ssa.CallCommon, a []Value) Value {
 		return Extract(Sub(nsOf(a[0]), BV(nsY1970, TW)), 63, 0)
-	}
-	in["(time.Time).Unix"] = func(r *Run, fr *Frame, cc *ssa.CallCommon, a []Value) Value {
+	})
+	reg.set("(time.Time).Unix", func(r *Run, fr *Frame, cc *ssa.CallCommon, a []Value) Value {
 		return Extract(SDiv(Sub(nsOf(a[0]), BV(nsY1970, TW)), BVi(1000000000, TW)), 63, 0)
-	}
+	})
 
-	in["math/rand.Intn"] = func(r *Run, fr *Frame, cc *ssa.CallCommon, a []Value) Value {
+	reg.set("math/rand.Intn", func(r *Run, fr *Frame, cc *ssa.CallCommon, a []Value) Value {
 		n := a[0].(*Term)
 		v := r.input(64)
 		r.addPC(And(SLe(BVi(0, 64), v), SLt(v, n)))
 		return v
-	}
+	})
 	// service.VerifyAPREQ as a nondeterministic verdict with a ghost flag
-	in["github.com/jcmturner/gokrb5/v8/service.VerifyAPREQ"] = func(r *Run, fr *Frame, cc *ssa.CallCommon, a []Value) Value {
+	reg.set("github.com/jcmturner/gokrb5/v8/service.VerifyAPREQ", func(r *Run, fr *Frame, cc *ssa.CallCommon, a []Value) Value {
 		ok := Eq(r.input(1), BVu(1, 1))
 		r.ghost["apreq-accepted"] = ok
 		if r.branch(ok) {
@@ -167,70 +189,70 @@ func (e *Engine) registerStubs() {
 		}
 		en := r.eng.prog.ImportedPackage("errors").Func("New")
 		return TupleV{False, &PtrV{}, r.callFn(fr, en, []Value{concStr("rejected")}, lbl("stub"))}
-	}
-	in[rtPkg+".Ghost"] = func(r *Run, fr *Frame, cc *ssa.CallCommon, a []Value) Value {
+	})
+	reg.set(rtPkg+".Ghost", func(r *Run, fr *Frame, cc *ssa.CallCommon, a []Value) Value {
 		k, _ := a[0].(*StrV).Concrete()
 		if v, ok := r.ghost[k]; ok {
 			return v
 		}
 		return False
-	}
-	in["context.Background"] = func(r *Run, fr *Frame, cc *ssa.CallCommon, a []Value) Value { return &IfaceV{} }
-	in["context.WithValue"] = func(r *Run, fr *Frame, cc *ssa.CallCommon, a []Value) Value { return &IfaceV{} }
+	})
+	reg.set("context.Background", func(r *Run, fr *Frame, cc *ssa.CallCommon, a []Value) Value { return &IfaceV{} })
+	reg.set("context.WithValue", func(r *Run, fr *Frame, cc *ssa.CallCommon, a []Value) Value { return &IfaceV{} })
 	// PA-DATA hint decoders with fixed distinguishable salts; StringToKey records its salt
-	in["(*github.com/jcmturner/gokrb5/v8/types.ETypeInfo2).Unmarshal"] = func(r *Run, fr *Frame, cc *ssa.CallCommon, a []Value) Value {
+	reg.set("(*github.com/jcmturner/gokrb5/v8/types.ETypeInfo2).Unmarshal", func(r *Run, fr *Frame, cc *ssa.CallCommon, a []Value) Value {
 		p := a[0].(*PtrV)
 		et := typeAt(p.obj.typ, p.path).Underlying().(*types.Slice).Elem()
 		sl := r.makeSlice(et, 1, 1)
 		elemsOf(sl)[0] = StructV{BVi(18, 32), concStr("2"), &SliceV{}}
 		r.store(p, sl, lbl("info2"))
 		return &IfaceV{}
-	}
-	in["(*github.com/jcmturner/gokrb5/v8/types.ETypeInfo).Unmarshal"] = func(r *Run, fr *Frame, cc *ssa.CallCommon, a []Value) Value {
+	})
+	reg.set("(*github.com/jcmturner/gokrb5/v8/types.ETypeInfo).Unmarshal", func(r *Run, fr *Frame, cc *ssa.CallCommon, a []Value) Value {
 		p := a[0].(*PtrV)
 		et := typeAt(p.obj.typ, p.path).Underlying().(*types.Slice).Elem()
 		sl := r.makeSlice(et, 1, 1)
 		elemsOf(sl)[0] = StructV{BVi(18, 32), r.bytesToSlice([]*Term{BVu('1', 8)})}
 		r.store(p, sl, lbl("info"))
 		return &IfaceV{}
-	}
-	in["(github.com/jcmturner/gokrb5/v8/crypto.Aes256CtsHmacSha96).StringToKey"] = func(r *Run, fr *Frame, cc *ssa.CallCommon, a []Value) Value {
+	})
+	reg.set("(github.com/jcmturner/gokrb5/v8/crypto.Aes256CtsHmacSha96).StringToKey", func(r *Run, fr *Frame, cc *ssa.CallCommon, a []Value) Value {
 		r.ghost["s2k-salt"] = a[2]
 		return TupleV{r.bytesToSlice(ufBytes("S2K", 32, a[1].(*StrV).b, a[2].(*StrV).b)), &IfaceV{}}
-	}
-	in[rtPkg+".GhostString"] = func(r *Run, fr *Frame, cc *ssa.CallCommon, a []Value) Value {
+	})
+	reg.set(rtPkg+".GhostString", func(r *Run, fr *Frame, cc *ssa.CallCommon, a []Value) Value {
 		k, _ := a[0].(*StrV).Concrete()
 		if v, ok := r.ghost[k]; ok {
 			return v
 		}
 		return &StrV{}
-	}
-	in["(*github.com/jcmturner/gokrb5/v8/pac.KerbValidationInfo).Unmarshal"] = func(r *Run, fr *Frame, cc *ssa.CallCommon, a []Value) Value {
+	})
+	reg.set("(*github.com/jcmturner/gokrb5/v8/pac.KerbValidationInfo).Unmarshal", func(r *Run, fr *Frame, cc *ssa.CallCommon, a []Value) Value {
 		if r.branch(Eq(r.input(1), BVu(1, 1))) {
 			return &IfaceV{}
 		}
 		en := r.eng.prog.ImportedPackage("errors").Func("New")
 		return r.callFn(fr, en, []Value{concStr("ndr error")}, lbl("stub"))
-	}
-	in["github.com/hashicorp/go-uuid.GenerateUUID"] = func(r *Run, fr *Frame, cc *ssa.CallCommon, a []Value) Value {
+	})
+	reg.set("github.com/hashicorp/go-uuid.GenerateUUID", func(r *Run, fr *Frame, cc *ssa.CallCommon, a []Value) Value {
 		return TupleV{concStr("00000000-0000-0000-0000-000000000000"), &IfaceV{}}
-	}
+	})
 	// math/big as 64-bit boxes (only NewInt / rand.Int / Int64 are needed)
 	box := func(r *Run, t *Term) Value { return &PtrV{obj: r.newObj(types.Typ[types.Int64], t, "bigint")} }
-	in["math/big.NewInt"] = func(r *Run, fr *Frame, cc *ssa.CallCommon, a []Value) Value { return box(r, a[0].(*Term)) }
-	in["crypto/rand.Int"] = func(r *Run, fr *Frame, cc *ssa.CallCommon, a []Value) Value {
+	reg.set("math/big.NewInt", func(r *Run, fr *Frame, cc *ssa.CallCommon, a []Value) Value { return box(r, a[0].(*Term)) })
+	reg.set("crypto/rand.Int", func(r *Run, fr *Frame, cc *ssa.CallCommon, a []Value) Value {
 		max := a[1].(*PtrV).obj.val.(*Term)
 		v := r.input(64)
 		r.addPC(And(SLe(BVi(0, 64), v), SLt(v, max)))
 		return TupleV{box(r, v), &IfaceV{}}
-	}
-	in["(*math/big.Int).Int64"] = func(r *Run, fr *Frame, cc *ssa.CallCommon, a []Value) Value { return a[0].(*PtrV).obj.val }
+	})
+	reg.set("(*math/big.Int).Int64", func(r *Run, fr *Frame, cc *ssa.CallCommon, a []Value) Value { return a[0].(*PtrV).obj.val })
 	// ---- decision-logic stubs ---------------------------------------------------------------
 	mk := func(r *Run, fr *Frame, msg string) Value {
 		en := r.eng.prog.ImportedPackage("errors").Func("New")
 		return r.callFn(fr, en, []Value{concStr(msg)}, lbl("stub"))
 	}
-	in["github.com/jcmturner/gokrb5/v8/crypto.DecryptEncPart"] = func(r *Run, fr *Frame, cc *ssa.CallCommon, a []Value) Value {
+	reg.set("github.com/jcmturner/gokrb5/v8/crypto.DecryptEncPart", func(r *Run, fr *Frame, cc *ssa.CallCommon, a []Value) Value {
 		ed := a[0].(StructV)  // EncryptedData{EType, KVNO, Cipher}
 		key := a[1].(StructV) // EncryptionKey{KeyType, KeyValue}
 		usage := a[2].(*Term)
@@ -250,7 +272,7 @@ func (e *Engine) registerStubs() {
 			return TupleV{cipher, &IfaceV{}}
 		}
 		return TupleV{&SliceV{}, mk(r, fr, "decrypt failed")}
-	}
+	})
 	unm := func(typeName string) intrinsic {
 		return func(r *Run, fr *Frame, cc *ssa.CallCommon, a []Value) Value {
 			p := a[0].(*PtrV)
@@ -261,9 +283,9 @@ func (e *Engine) registerStubs() {
 			return mk(r, fr, "asn1 decode error")
 		}
 	}
-	in["(*github.com/jcmturner/gokrb5/v8/messages.EncTicketPart).Unmarshal"] = unm("EncTicketPart")
-	in["(*github.com/jcmturner/gokrb5/v8/types.Authenticator).Unmarshal"] = unm("Authenticator")
-	in["(*github.com/jcmturner/gokrb5/v8/messages.EncKDCRepPart).Unmarshal"] = unm("EncKDCRepPart")
+	reg.set("(*github.com/jcmturner/gokrb5/v8/messages.EncTicketPart).Unmarshal", unm("EncTicketPart"))
+	reg.set("(*github.com/jcmturner/gokrb5/v8/types.Authenticator).Unmarshal", unm("Authenticator"))
+	reg.set("(*github.com/jcmturner/gokrb5/v8/messages.EncKDCRepPart).Unmarshal", unm("EncKDCRepPart"))
 }
 
 func (r *Run) ghostLog(k string, v Value) {
